@@ -22,6 +22,10 @@ class AstToSqliteSqlVisitor(AstToSqlVisitor):
         """:meta private:"""
         return f"DATE('{node.val}')"
 
+    def visit_Time(self, node: ast.Time) -> str:
+        """:meta private:"""
+        return f"TIME('{node.val}')"
+
     def visit_DateTime(self, node: ast.DateTime) -> str:
         """:meta private:"""
         return f"DATETIME('{node.val}')"
